@@ -31,6 +31,8 @@ type vfCOp struct {
 	// search restricted to these documents of the issuing goroutine (ordinals; 0 = an id nobody ever
 	// adds): the id restriction goes through the pooled document filter (vector kinds, bm25)
 	Only []int `json:"only,omitempty"`
+	// search through a numeric metadata filter that every document satisfies (metadata / hybrid / store)
+	Meta bool `json:"meta,omitempty"`
 }
 
 type vfC11Case struct {
@@ -89,6 +91,10 @@ func vfC11Gen(rt *rapid.T) vfC11Case {
 				return vfCOp{Op: "remove", N: removed[rapid.IntRange(0, len(removed)-1).Draw(rt, "rm_again")]}
 			case w < 80:
 				op := vfCOp{Op: "search", Q: g.drawNonZero(rt, "q"), Multi: rapid.IntRange(0, 2).Draw(rt, "multi_query") == 0}
+				if rapid.IntRange(0, 3).Draw(rt, "by_metadata") == 0 {
+					op.Multi, op.Meta = false, true
+					return op
+				}
 				if rapid.IntRange(0, 2).Draw(rt, "restricted") == 0 {
 					op.Multi = false
 					switch rapid.IntRange(0, 3).Draw(rt, "restriction") {
@@ -149,6 +155,8 @@ type vfConcTarget struct {
 	searchMulti func() ([]uint32, error)
 	// searchOnly: the search restricted to the given ids (nil where the target has no id restriction)
 	searchOnly func(q []float32, ids []uint32) ([]uint32, error)
+	// searchMeta: a numeric range filter (bit-sliced index) that every document satisfies
+	searchMeta func() ([]uint32, error)
 	flush      func() error
 	write      func() error
 	exact      bool // a k=all search must contain every document that is visible
@@ -249,6 +257,10 @@ func vfBuildConcTarget(c *vfC11Case, dir string) (*vfConcTarget, error) {
 			res, err := mi.NewSearch().WithFilters(Eq("tag", "t")).Execute()
 			return vfMetaIDs(res), err
 		}
+		t.searchMeta = func() ([]uint32, error) {
+			res, err := mi.NewSearch().WithFilters(Range("n", 0, 999), Not(Lt("n", 0))).Execute()
+			return vfMetaIDs(res), err
+		}
 		t.flush = mi.Flush
 		t.write = func() error { _, err := mi.WriteTo(io.Discard); return err }
 	case "hybrid":
@@ -266,6 +278,14 @@ func vfBuildConcTarget(c *vfC11Case, dir string) (*vfConcTarget, error) {
 		t.remove = h.Remove
 		t.search = func(q []float32) ([]uint32, error) {
 			res, err := h.NewSearch().WithVector(vfCloneF32(q)).WithK(vfBigK).Execute()
+			ids := make([]uint32, len(res))
+			for i, r := range res {
+				ids[i] = r.ID
+			}
+			return ids, err
+		}
+		t.searchMeta = func() ([]uint32, error) {
+			res, err := h.NewSearch().WithMetadata(Range("n", 0, 999)).WithK(vfBigK).Execute()
 			ids := make([]uint32, len(res))
 			for i, r := range res {
 				ids[i] = r.ID
@@ -298,6 +318,14 @@ func vfBuildConcTarget(c *vfC11Case, dir string) (*vfConcTarget, error) {
 		t.remove = st.Remove
 		t.search = func(q []float32) ([]uint32, error) {
 			res, err := st.NewSearch().WithVector(vfCloneF32(q)).WithK(vfBigK).Execute()
+			ids := make([]uint32, len(res))
+			for i, r := range res {
+				ids[i] = r.ID
+			}
+			return ids, err
+		}
+		t.searchMeta = func() ([]uint32, error) {
+			res, err := st.NewSearch().WithVector(vfCloneF32(c.Vecs[0])).WithMetadata(Range("n", 0, 999)).WithK(vfBigK).Execute()
 			ids := make([]uint32, len(res))
 			for i, r := range res {
 				ids[i] = r.ID
@@ -473,6 +501,8 @@ func vfC11RunCase(c vfC11Case, ctx *vfCtx) *vfViolation {
 							s.only[id] = true
 						}
 						s.ids, s.err = t.searchOnly(op.Q, only)
+					} else if op.Meta && t.searchMeta != nil {
+						s.ids, s.err = t.searchMeta()
 					} else if op.Multi && t.searchMulti != nil {
 						s.ids, s.err = t.searchMulti()
 					} else {
